@@ -1,3 +1,5 @@
 SPECIFICATION Spec
+CONSTANTS FlipBits <- QuickBits
+          Retypes <- MCRetypes
 INVARIANTS AttributionByKey AlteredDropped RelayBlind
 CHECK_DEADLOCK FALSE
